@@ -270,6 +270,23 @@ def chord_noise(p, l, r):
     return 64 * EPS * float(np.max(cross_terms + par_terms))
 
 
+def ref_distances(p, l, r, kind):
+    """Distances of p[l..r] to the chord p[l]-p[r], written from the geometric definition and
+    independent of the library's primitives: 'perpendicular' = distance to the infinite line,
+    'shortest' = distance to the closed segment."""
+    a, b = p[l].astype(float), p[r].astype(float)
+    d = p[l:r + 1].astype(float) - a
+    ch = np.hypot(b[0] - a[0], b[1] - a[1])
+    with np.errstate(all='ignore'):
+        ux, uy = (b[0] - a[0]) / ch, (b[1] - a[1]) / ch
+        perp = np.abs(d[:, 0] * uy - d[:, 1] * ux)
+        if kind == 'perpendicular':
+            return perp
+        par = d[:, 0] * ux + d[:, 1] * uy
+        e = p[l:r + 1].astype(float) - b
+        return np.where(par < 0, np.hypot(d[:, 0], d[:, 1]), np.where(par > ch, np.hypot(e[:, 0], e[:, 1]), perp))
+
+
 def is_int_array(a, ndim=1):
     return isinstance(a, np.ndarray) and a.ndim == ndim and (a.size == 0 or a.dtype.kind in 'iu')
 
